@@ -37,6 +37,7 @@ type scenario struct {
 	waiters           bool // AwaitRunning / AwaitTerminated (background ctx)
 	parkingListener   bool // second listener whose callbacks take time (park)
 	lateListener      bool // listener added at any moment (+ remover)
+	gatedStop         bool // the stopping function does not finish before AwaitRunning has returned: by then Running is reached or unreachable
 	keepListener      bool // with lateListener: the late listener is never removed, so it must see every later transition
 	cancellableWaiter bool
 	big               bool
@@ -114,10 +115,11 @@ func legalSequence(seq []string) bool {
 }
 
 type svcProbe struct {
-	sc    scenario
-	svc   *services.BasicService
-	name  string
-	calls map[string]int
+	sc       scenario
+	svc      *services.BasicService
+	name     string
+	calls    map[string]int
+	stopGate func() bool
 }
 
 func (p *svcProbe) fn(which string, outcome int, errv error) func(ctx context.Context) error {
@@ -152,6 +154,9 @@ func (p *svcProbe) build() *services.BasicService {
 				cerr = c.Err()
 			}
 			sched.Obs(fmt.Sprintf("%sstop-enter ctxErr=%v failure=%v", p.name, cerr, failure))
+			if p.stopGate != nil {
+				sched.YieldUntil("stop-gate", p.stopGate)
+			}
 			var err error
 			if p.sc.stop == oErr {
 				err = errStop
@@ -216,9 +221,14 @@ func runSingle(t *testing.T, sc scenario, ch *sched.Chooser) (res sched.Result) 
 		if sc.canceller {
 			e.Go("c-cancel", func() { sched.Obs("parent-cancel"); cancelParent() })
 		}
+		wrReturned := false
+		if sc.gatedStop {
+			p.stopGate = func() bool { return wrReturned }
+		}
 		if sc.waiters {
 			e.Go("w-running", func() {
 				err := svc.AwaitRunning(context.Background())
+				wrReturned = true
 				sched.Obs(fmt.Sprintf("AwaitRunning -> nil=%v", err == nil))
 			})
 			e.Go("w-terminated", func() {
@@ -546,6 +556,11 @@ func singleScenarios() []scenario {
 	for _, o := range [][3]int{{oBlock, oBlock, oNil}, {oNil, oBlock, oErr}, {oBlock, oNil, oNil}, {oNil, oNil, oNil}, {oNil, oAbsent, oNil}} {
 		out = append(out, scenario{name: "cancel", start: o[0], run: o[1], stop: o[2], stopper: true, canceller: true})
 		out = append(out, scenario{name: "double-stop", start: o[0], run: o[1], stop: o[2], stopper: true, stopper2: true})
+	}
+	// "waiters return exactly when their state is reached or can no longer be reached": once the stopping function
+	// runs, Running is decided, so a stopping function that waits for AwaitRunning to return must not deadlock
+	for _, o := range [][3]int{{oBlock, oBlock, oNil}, {oBlock, oNil, oErr}, {oNil, oBlock, oNil}, {oNil, oNil, oNil}, {oNil, oErr, oNil}} {
+		out = append(out, scenario{name: "gated-stop", start: o[0], run: o[1], stop: o[2], stopper: true, waiters: true, gatedStop: true})
 	}
 	for _, o := range [][3]int{{oNil, oBlock, oNil}, {oNil, oErr, oNil}, {oErr, oNil, oNil}, {oBlock, oBlock, oErr}} {
 		out = append(out, scenario{name: "slow-listener", start: o[0], run: o[1], stop: o[2], stopper: true, parkingListener: true})
